@@ -213,6 +213,7 @@ func (m *monitors) checkReader(r *run, dts map[string]*dtInfo) {
 				msg := fmt.Sprintf("step %d: the read-only observer pulled %s from position %d and was answered with position %d and operations %v; the log holds %v at %d..%d (recorded end %d)", pl.step, key, pl.before, pl.after, pl.ops, want, pl.before+1, pl.after, di.doc.Sseq.End)
 				r.fail("serial", "C12.observer-sees-the-log", "handed-out-differs", "%s", msg)
 				r.fail("log", "C06.handed-out-equals-stored", "handed-out-differs", "%s", msg)
+				r.fail("refuse", "C16.refused-changes-nothing", "handed-out-differs", "%s", msg)
 			}
 		}
 	}
